@@ -168,27 +168,13 @@ theorem c16_stubD_required (w : World) (src : ClassSrc) (n : String) (hcov : cov
     rw [this]
     rfl
 
-/-- the `**` clause: exact characterisation over Define's worlds -/
+/-- the `**` clause over Define's worlds: stub, `__signature__` and constructor are one and the same -/
 theorem c16_stubD_kw_iff (dflt : Bool) (w : World) (src : ClassSrc) :
-    stubKwD dflt w src = (admitsD dflt w src || inheritedOnD dflt w src) := by
-  unfold stubKwD admitsD inheritedOnD sigKwD addlAttr
-  cases hd : src.addl with
-  | some b => cases b <;> cases dflt <;> simp
-  | none =>
-    cases dflt <;> cases hl : inheritedOpt w (·.ownAddl) (mroTail w src) with
-    | none => simp
-    | some b => cases b <;> simp
+    stubKwD dflt w src = admitsD dflt w src := by
+  unfold stubKwD admitsD sigKwD
+  cases (addlAttr w src).getD dflt <;> rfl
 
-theorem c16_stubD_sigkw_iff (dflt : Bool) (w : World) (src : ClassSrc) :
-    (stubKwD dflt w src == sigKwD dflt src) = !(inheritedOnD dflt w src || inheritedOffD dflt w src) := by
-  unfold stubKwD inheritedOnD inheritedOffD sigKwD addlAttr
-  cases hd : src.addl with
-  | some b => cases b <;> cases dflt <;> simp
-  | none =>
-    cases dflt <;> cases hl : inheritedOpt w (·.ownAddl) (mroTail w src) with
-    | none => simp
-    | some b => cases b <;> simp
-
-theorem c16_sigKwD_true (w : World) (src : ClassSrc) : sigKwD true src = (sigOf w src).kwargs := rfl
+theorem c16_stubD_sigkw (dflt : Bool) (w : World) (src : ClassSrc) :
+    stubKwD dflt w src = sigKwD dflt w src := rfl
 
 end Typedpy.StubD
